@@ -239,6 +239,8 @@ impl Shards {
     /// `body` is the inside of a JSON object WITHOUT braces, e.g. `"ev":"dec","n":8`
     pub fn emit(&mut self, body: &str) {
         self.events += 1;
+        // the conversions of the NEXT event run with the other logging level (no effect unless a logger is installed)
+        log::set_max_level(if self.events % 2 == 1 { log::LevelFilter::Trace } else { log::LevelFilter::Off });
         // thinning applies to the many independent sample events; the few summary / large-frame / echo events (each the
         // only witness of a whole code path) are always kept
         let rare = body.starts_with("\"ev\":\"mathtot\"") || body.starts_with("\"ev\":\"rt_bad\"") || body.contains("\"probe\":1") || body.contains("\"echo\":1");
@@ -363,6 +365,27 @@ pub fn probe_indices(n: usize, w: usize, rng: &mut Rng) -> Vec<usize> {
 }
 /// sizes of the LARGE probe images: above typical "parallelise / vectorise from here on" thresholds (>= 512*512 pixels),
 /// with pixel counts that are not multiples of 2, 4, 8 or 16
+/// a do-nothing `log` logger: the library logs through the `log` facade, and whether the host process has installed a
+/// logger (and at which level) must not change what a conversion returns.  Installed in every generator process; the
+/// level flips between Off and Trace from one emitted event to the next (`Shards::emit`), so every family runs half of its
+/// conversions on a host with a logger that wants everything and half on a host without one.
+pub struct NullLogger;
+impl log::Log for NullLogger {
+    fn enabled(&self, _: &log::Metadata) -> bool {
+        true
+    }
+    fn log(&self, r: &log::Record) {
+        // format the arguments as a real logger would
+        let _ = format!("{}", r.args());
+    }
+    fn flush(&self) {}
+}
+pub static NULL_LOGGER: NullLogger = NullLogger;
+pub fn install_logger() {
+    let _ = log::set_logger(&NULL_LOGGER);
+    log::set_max_level(log::LevelFilter::Off);
+}
+
 /// positions where two results differ bit for bit (first and last few, the rest evenly spread), at most `cap`
 pub fn diff_positions(a: &[[f32; 3]], b: &[[f32; 3]], cap: usize) -> Vec<usize> {
     let all: Vec<usize> = (0..a.len().min(b.len())).filter(|&i| (0..3).any(|k| a[i][k].to_bits() != b[i][k].to_bits())).collect();
